@@ -155,7 +155,8 @@ class ThrRun(sbx.SbxRun):
                           'switches': s.switch_list(), 'n_switches': len(s.switches), 'trace_len': len(s.trace),
                           'deadlock': s.deadlock, 'diverged': s.diverged, 'clock_jumps': s.clock_jumps,
                           'probe': dict(s.probe),
-                          'thread_states': [(t.index, t.state, t.events, t.blocked_on) for t in s.threads]}}
+                          'thread_states': [(t.index, t.state, t.events, t.blocked_on) for t in s.threads],
+                          'thread_born': {t.index: t.op_born for t in s.threads}}}
 
 
 def execute(spec):
